@@ -239,6 +239,8 @@ func outFields(p interface{}) []string {
 	return nil
 }
 
+var concValues int // HMAC values produced under concurrent rotation and attributed in this run
+
 type cresult struct {
 	lit     string
 	log     []string
@@ -333,6 +335,7 @@ func execCrypto(c CCase) cresult {
 		steps = append(steps, fmt.Sprintf("(%s, %s)", opLit, obs))
 	}
 	conc := concurrentPart(c, keys, &res)
+	concValues += len(conc)
 	res.lit = fmt.Sprintf("{| cc_id := %s; cc_init := {| f_wrap := %s; f_salt := %s; f_info := %s |};\n   cc_steps := %s;\n   cc_conc := %s; cc_cb := %s |}",
 		hc.N(c.ID), optKeyLit(c.Init.W), optBstrLit(c.Init.S), optBstrLit(c.Init.I), hc.List(steps), hc.List(conc), hc.List(callbackPart(c, keys)))
 	return res
@@ -461,7 +464,7 @@ func cryptoSpecials() []CCase {
 	return out
 }
 
-func mainCrypto(out, prefix string, perShard, n int, corpus string) {
+func mainCrypto(out, prefix string, perShard, n int, corpus string, concOnly bool) {
 	initDataPool()
 	cf := &hc.CaseFile{Dir: out, Prefix: prefix, PerShard: perShard / 5, Type: "list ccase",
 		Header: "From Coq Require Import List NArith String.\nFrom Verif Require Import Base64 Crypto Run_Crypto.\nImport ListNotations.\nOpen Scope string_scope.\nOpen Scope list_scope.",
@@ -515,6 +518,11 @@ func mainCrypto(out, prefix string, perShard, n int, corpus string) {
 			}
 		}
 	}
+	if concOnly {
+		// only the search under concurrent rotation (also used by the C19 check)
+		emit(CCase{Gen: "concurrent", Init: COp{W: 1, S: 1, I: 1}, Conc: 400})
+		n = 0
+	}
 	if n > 0 {
 		for _, c := range cryptoSpecials() {
 			emit(c)
@@ -526,7 +534,7 @@ func mainCrypto(out, prefix string, perShard, n int, corpus string) {
 	}
 	cf.Close()
 	side.Close()
-	summary := map[string]interface{}{"stats": stats, "files": cf.Files, "cases": cf.Total, "distinct_nontrivial": nontriv, "panics": panics, "seed": hc.Seed(),
+	summary := map[string]interface{}{"stats": stats, "files": cf.Files, "cases": cf.Total, "distinct_nontrivial": nontriv, "panics": panics, "seed": hc.Seed(), "values_under_concurrent_rotation": concValues,
 		"data_pool": "empty, 1 byte, non-UTF-8 with NUL, 300 bytes, UTF-8, texts that look like filtered values"}
 	js, _ := json.MarshalIndent(summary, "", " ")
 	os.WriteFile(out+"/"+prefix+"_summary.json", js, 0o644)
